@@ -74,6 +74,14 @@ def noise_cases(tier):
                 out.append(("noise", sub, kw))
     out.append(("noise", ("eff_noise", "leakage"), dict(eff_noise_rates=(0.1,), eff_noise_opers=(OP3,), with_leakage=True)))
     out.append(("noise", ("eff_noise", "leakage", "relaxation"), dict(eff_noise_rates=(0.1,), eff_noise_opers=(OP3,), with_leakage=True, relaxation_rate=0.2)))
+    # effective-noise channels with a rate of exactly 0 (valid: rates only have to be >= 0) - a sweep starting at 0, the identity
+    # placeholder that merely switches the leakage state on
+    ID3 = [[1.0, 0.0, 0.0], [0.0, 1.0, 0.0], [0.0, 0.0, 1.0]]
+    out.append(("noise", ("eff_noise",), dict(eff_noise_rates=(0.0, 0.3), eff_noise_opers=(OP2, OP2B))))
+    out.append(("noise", ("eff_noise",), dict(eff_noise_rates=(0.3, 0.0), eff_noise_opers=(OP2, OP2B))))
+    out.append(("noise", ("eff_noise",), dict(eff_noise_rates=(0.0,), eff_noise_opers=(OP2,))))
+    out.append(("noise", ("eff_noise", "leakage"), dict(eff_noise_rates=(0.0,), eff_noise_opers=(ID3,), with_leakage=True)))
+    out.append(("noise", ("eff_noise", "leakage", "dephasing"), dict(eff_noise_rates=(0.0, 0.2), eff_noise_opers=(ID3, OP3), with_leakage=True, dephasing_rate=0.1)))
     return out
 
 
@@ -339,6 +347,10 @@ def config_cases(tier):
             [("bit",), ("occ", "corr"), ("energy", "var", "second"), ("fid", "exp"), ("bit", "occ", "fid", "exp", "energy")],
             [None, (0.0, 0.5, 1.0), (0.25,)], [None, "ket", "ket3"], [None, "deph", "spam"]):
         out.append(("config", obs, times, init, nm))
+    # every noise type inside a configuration (the config schema embeds the noise-model schema)
+    for nm in ("eff", "eff-leak", "doppler", "amp", "all-rates"):
+        for obs in (("bit",), ("occ", "corr")):
+            out.append(("config", obs, (0.0, 0.5, 1.0), None, nm))
     for n1, n2, n3 in itertools.permutations([1, 2, 3], 3):
         out.append(("alias-state", (n1, n2, n3)))
     for which in ("dict", "list", "matrix", "times", "all"):
@@ -383,7 +395,13 @@ def check_config(obs, times, init, nm):
     try:
         observables = [mk[o]() for o in obs]
         noise = {None: NoiseModel(), "deph": NoiseModel(dephasing_rate=0.1, relaxation_rate=0.2),
-                 "spam": NoiseModel(p_false_pos=0.02, p_false_neg=0.05)}[nm]
+                 "spam": NoiseModel(p_false_pos=0.02, p_false_neg=0.05),
+                 "eff": NoiseModel(eff_noise_rates=(0.1, 0.25), eff_noise_opers=(OP2, OP2B)),
+                 "eff-leak": NoiseModel(eff_noise_rates=(0.1,), eff_noise_opers=(OP3,), with_leakage=True),
+                 "doppler": NoiseModel(temperature=50.0, runs=3, samples_per_run=2),
+                 "amp": NoiseModel(amp_sigma=0.05, laser_waist=80.0, runs=4, samples_per_run=1),
+                 "all-rates": NoiseModel(relaxation_rate=0.1, dephasing_rate=0.2, hyperfine_dephasing_rate=0.05, depolarizing_rate=0.3,
+                                         state_prep_error=0.1, runs=2, samples_per_run=2)}[nm]
         cfg = EmulationConfig(observables=observables, default_evaluation_times="Full" if times is None else (0.0, 1.0),
                               initial_state=_state(init), noise_model=noise, with_modulation=times is not None, interaction_cutoff=0.1 if nm else None)
     except Exception as e:
@@ -393,7 +411,7 @@ def check_config(obs, times, init, nm):
         back = EmulationConfig.from_abstract_repr(s)
         s2 = back.to_abstract_repr()
     except Exception as e:
-        return [(f"C17:config-roundtrip-raises:{type(e).__name__}", f"{obs} {times} {init} {nm}: {e}"[:250])]
+        return [(f"C17:config-roundtrip-raises:{type(e).__name__}{':' + nm if nm in ('eff', 'eff-leak') else ''}", f"{obs} {times} {init} {nm}: {e}"[:250])]
     if json.loads(s) != json.loads(s2):
         d1, d2 = json.loads(s), json.loads(s2)
         keys = [k for k in d1 if d1.get(k) != d2.get(k)]
